@@ -1,5 +1,6 @@
 from lib import flow
 from .pipecommon import CAT_K, kscripts
+from . import opcommon
 
 SH2 = {"sa_101v0": [True, False, True], "sa_102v0": [False, True]}
 SH2T = {"sa_101v0": [True, True], "sa_102v0": [True, False, True]}
@@ -20,14 +21,18 @@ C = dict(
         dict(module="Checkpoint_MC", cfg="Checkpoint_MC_1.cfg", workers=8),
         dict(module="Checkpoint_MC", cfg="Checkpoint_MC_2.cfg", workers=8),
         dict(module="Checkpoint_MC", cfg="Checkpoint_MC_2t.cfg", workers=8),
-    ],
+    ] + opcommon.MODEL_CHECKS,
     plan_sources=[
         dict(name="k1", module="Checkpoint_MC", cfg="Checkpoint_Plan_1.cfg", cap={"quick": 70, "thorough": 1500}, params=P(SH2, T1, 1), workers=8),
         dict(name="k2", module="Checkpoint_MC", cfg="Checkpoint_Plan_2.cfg", cap={"quick": 50, "thorough": 1500}, params=P(SH2, T1, 2), workers=8),
         dict(name="k2t", module="Checkpoint_MC", cfg="Checkpoint_Plan_2t.cfg", cap={"quick": 50, "thorough": 1500}, params=P(SH2T, T2, 1), workers=8),
         dict(name="k2t2", module="Checkpoint_MC", cfg="Checkpoint_Plan_2t2.cfg", cap={"quick": 30, "thorough": 1500}, params=P(SH2T, T2, 2), workers=8),
-    ],
+    ] + opcommon.sources(60, 2500),
     directed="plans/C05.jsonl",
+    # plans of OpStream.tla (operation packs of the replicate channel read by per-task channel readers) run on the same
+    # driver and are judged by OpStream_Trace
+    trace_of=lambda p: (("OpStream_Trace", "OpStream_Trace.cfg", {"PROP": "C05"}) if opcommon.is_op(p)
+                        else ("Ckpt_Trace", "Ckpt_Trace.cfg", {"PROP": "C05"})),
     trace=("Ckpt_Trace", "Ckpt_Trace.cfg"),
     validate_env={"PROP": "C05"},
     death="violation",
@@ -54,6 +59,7 @@ def run(tier, replay=None):
         if "C05" not in r.violated:
             raise vlib.Inconclusive("Checkpoint_MC_2_continue.cfg no longer violates C05: the model's failure path is vacuous")
         vlib.log("[tlc] Checkpoint_MC/Checkpoint_MC_2_continue.cfg: violates C05 as expected")
+        opcommon.controls(vlib)
     import copy
     c = copy.deepcopy({k: v for k, v in C.items() if k != "nontrivial"})
     c["nontrivial"] = C["nontrivial"]
